@@ -29,6 +29,13 @@ Theorem Base_interpI_singleton : forall A prec p eta (r : run A) v w forks, eval
 Proof. exact interpI_singleton. Qed.
 Print Assumptions Base_interpI_singleton.
 
+(* the signature-threading exploration used for coverage measurement has exactly the outcomes of interpI, and the
+   correspondence entry points built on it return the same verdict (plus 4 x the signature of the reproducing path) *)
+Theorem Base_interpS_fst : forall prec p eta A (r : run A) forks h,
+  map fst (interpS prec p eta r forks h) = interpI prec p eta r forks.
+Proof. exact interpS_fst. Qed.
+Print Assumptions Base_interpS_fst.
+
 Theorem Base_evals_deterministic : forall A (r : run A) v1 v2, evals r v1 -> evals r v2 -> v1 = v2.
 Proof. exact evals_deterministic. Qed.
 Print Assumptions Base_evals_deterministic.
